@@ -216,6 +216,35 @@ def cluster_leg(c, sc):
     c.cov["cluster_samples"] = nsamples
 
 
+def many_leg(c, sc):
+    """'many instances per service': 3 x 4 000 silent HTTP instances (more than the actor expires in one sweep) + beating,
+    connection-owned and persistent ones on the real NamingActor in real time; requirements: ExpiryMany.tla (TLC)"""
+    obs = [r for r in vlib.harness(["record", "registry-many", "--per", 4000], timeout=300) if r.get("kind") == "many"]
+    if len(obs) != 6:
+        raise ToolError("many-instances leg: %d observations instead of 6" % len(obs))
+    if any(o["registering_took_ms"] >= o["health_timeout_ms"] for o in obs):
+        raise ToolError("many-instances leg: registering took longer than the health time-out (%s ms): nothing can be said" % obs[0]["registering_took_ms"])
+    of = vlib.write_ndjson(os.path.join(sc, "many_obs.ndjson"), obs)
+    e = dict(os.environ, JAVA_TOOL_OPTIONS="-Xss1g", OBS=of)
+    r = subprocess.run(["timeout", "300", "tlc", "-workers", "1", "-metadir", os.path.join(vlib.TLCDIR, "c13_many"), "-cleanup", "-noGenerateSpecTE",
+                        "-config", "CHK_ExpiryMany.cfg", "ExpiryMany.tla"], cwd=vlib.SPEC, stdout=subprocess.PIPE, stderr=subprocess.STDOUT, text=True, env=e)
+    if "Model checking completed. No error has been found" not in r.stdout:
+        import sys
+        sys.stderr.write(r.stdout[-2000:])
+        raise ToolError("TLC failed evaluating ExpiryMany")
+    c.add_mc({"generated": 2, "distinct": 2, "depth": 2, "wall_s": 0, "actions": {}, "cfg": "CHK_ExpiryMany.cfg", "module": "ExpiryMany.tla"})
+    for req, i in [(m.group(1), int(m.group(2))) for m in re.finditer(r'<<"REQ-FAILED", "(\w+)", (\d+)>>', r.stdout)]:
+        o = obs[i - 1]
+        c.violation("C13:%s@many_instances:%s" % (req, o["phase"]),
+                    "real NamingActor with 3 services x %d silent HTTP instances (+ 5 beating, 1 connection-owned, 1 persistent each; health time-out "
+                    "%d ms, instance time-out %d ms): %s after %d sweeps at %d ms, service %s counts %s" %
+                    (o["registered"], o["health_timeout_ms"], o["instance_timeout_ms"], o["phase"], o["sweeps"], o["at_ms"], o["service"], json.dumps(o["n"])),
+                    {"observation": o, "all": obs})
+    c.count(len(obs), [{"many": o["service"], "phase": o["phase"]} for o in obs])
+    c.traces(1)
+    c.cov["many_instances_leg"] = {"instances": sum(o["registered"] for o in obs) // 2, "observations": len(obs)}
+
+
 def run(tier):
     c = Check("C13", tier)
     quick = tier != "thorough"
@@ -231,6 +260,7 @@ def run(tier):
     rt = [b for b in beh if has_expiry(b)][: (80 if quick else 800)]
     rc.replay(c, rt, sc, "actor", "NamingActor (real clock)", has_expiry, H=1, T=3, name="rt")
     cluster_leg(c, sc)
+    many_leg(c, sc)
     c.cov["behaviours_with_expiry"] = sum(1 for b in beh if has_expiry(b))
     c.sample({"behaviour_ops": [(s["op"], s.get("a"), s.get("now")) for s in beh[0]["steps"]]})
     c.assumptions += [
